@@ -61,6 +61,76 @@ theorem parseObus_total (w fuel : Nat) (payload : Bytes) (acc obus : List Bytes)
             omega
       · simp at h; subst h; simp
 
+/-- every OBU `parseObus` returns is non-empty -/
+theorem parseObus_pos (w fuel : Nat) (payload : Bytes) (acc obus : List Bytes)
+    (hacc : ∀ x ∈ acc, 0 < x.length) (h : parseObus w fuel payload acc = some obus) : ∀ x ∈ obus, 0 < x.length := by
+  induction fuel generalizing payload acc with
+  | zero => simp [parseObus] at h; subst h; exact hacc
+  | succ fuel ih =>
+    rw [parseObus] at h
+    split at h
+    · simp at h; subst h; exact hacc
+    · rename_i hne
+      split at h
+      · split at h
+        · simp at h
+        · rename_i n size hd
+          simp only at h
+          split at h
+          · simp at h
+          · rename_i hsz
+            apply ih _ _ _ h
+            intro x hx
+            simp only [List.mem_append, List.mem_singleton] at hx
+            rcases hx with hx | hx
+            · exact hacc x hx
+            · subst hx; simp only [List.length_take]; omega
+      · simp at h; subst h
+        intro x hx
+        simp only [List.mem_append, List.mem_singleton] at hx
+        rcases hx with hx | hx
+        · exact hacc x hx
+        · subst hx
+          cases x with
+          | nil => simp at hne
+          | cons a t => simp
+
+/-- a non-empty payload yields at least one OBU -/
+theorem parseObus_ne_nil (w fuel : Nat) (payload : Bytes) (acc obus : List Bytes) (hp : 0 < payload.length)
+    (hf : 0 < fuel) (h : parseObus w fuel payload acc = some obus) : acc.length < obus.length := by
+  have mono : ∀ (fuel : Nat) (payload : Bytes) (acc obus : List Bytes),
+      parseObus w fuel payload acc = some obus → acc.length ≤ obus.length := by
+    intro fuel
+    induction fuel with
+    | zero => intro payload acc obus h; simp [parseObus] at h; subst h; exact Nat.le_refl _
+    | succ fuel ih =>
+      intro payload acc obus h
+      rw [parseObus] at h
+      split at h
+      · simp at h; subst h; exact Nat.le_refl _
+      · split at h
+        · split at h
+          · simp at h
+          · simp only at h
+            split at h
+            · simp at h
+            · have := ih _ _ _ h; simp only [List.length_append, List.length_singleton] at this; omega
+        · simp at h; subst h; simp
+  cases fuel with
+  | zero => omega
+  | succ fuel =>
+    rw [parseObus] at h
+    split at h
+    · rename_i he; cases payload with | nil => simp at hp | cons a t => simp at he
+    · split at h
+      · split at h
+        · simp at h
+        · simp only at h
+          split at h
+          · simp at h
+          · have := mono _ _ _ _ h; simp only [List.length_append, List.length_singleton] at this; omega
+      · simp at h; subst h; simp
+
 /-- totality: more fuel than payload bytes never changes the answer (the loop consumes at least one
 byte per round, so it never runs out of fuel) -/
 theorem parseObus_fuel (w fuel : Nat) (payload : Bytes) (acc : List Bytes) (hf : payload.length ≤ fuel) :
@@ -101,15 +171,16 @@ structure Inv (P : Nat) (d : Dec) : Prop where
   fb_len  : d.frameBufferLen = d.frameBuffer.length
   fb_le   : d.frameBufferSize ≤ CodecAv1vp.av1MaxTemporalUnitSize
   fb_cnt  : d.frameBufferLen ≤ CodecAv1vp.av1MaxOBUsPerTemporalUnit
+  frag_ne : ∀ x ∈ d.fragments, 0 < x.length
 
 theorem inv_resetFragments (P : Nat) (d : Dec) (h : Inv P d) : Inv P d.resetFragments :=
-  ⟨rfl, by simp [Dec.resetFragments], h.fb_eq, h.fb_len, h.fb_le, h.fb_cnt⟩
+  ⟨rfl, by simp [Dec.resetFragments], h.fb_eq, h.fb_len, h.fb_le, h.fb_cnt, by simp [Dec.resetFragments]⟩
 
 theorem inv_resetFrameBuffer (P : Nat) (d : Dec) (h : Inv P d) : Inv P d.resetFrameBuffer :=
-  ⟨h.frag_eq, h.frag_le, rfl, rfl, by simp [Dec.resetFrameBuffer], by simp [Dec.resetFrameBuffer]⟩
+  ⟨h.frag_eq, h.frag_le, rfl, rfl, by simp [Dec.resetFrameBuffer], by simp [Dec.resetFrameBuffer], h.frag_ne⟩
 
 theorem inv_first (P : Nat) (d : Dec) (b : Bool) (h : Inv P d) : Inv P { d with firstPacketReceived := b } :=
-  ⟨h.frag_eq, h.frag_le, h.fb_eq, h.fb_len, h.fb_le, h.fb_cnt⟩
+  ⟨h.frag_eq, h.frag_le, h.fb_eq, h.fb_len, h.fb_le, h.fb_cnt, h.frag_ne⟩
 
 theorem getLastD_mem_cons (a : Bytes) (t : List Bytes) : t.getLastD a ∈ a :: t := by
   induction t generalizing a with
@@ -130,38 +201,52 @@ theorem holdLast_fb (d : Dec) (p : Pkt) (y : Bool) (obus : List Bytes) :
   · simp
 
 theorem holdLast_inv (P : Nat) (d : Dec) (p : Pkt) (y : Bool) (obus : List Bytes)
-    (h : Inv P d) (hfr : d.fragments = [])
-    (hl : ∀ x ∈ obus, x.length ≤ CodecAv1vp.av1MaxTemporalUnitSize + P) :
+    (h : Inv P d) (hfr : d.fragments = []) (hne : obus ≠ [])
+    (hl : ∀ x ∈ obus, 0 < x.length ∧ x.length ≤ CodecAv1vp.av1MaxTemporalUnitSize + P) :
     Inv P (holdLast d p y obus).1 := by
   unfold holdLast
   split
-  · have hlast : (obus.getLastD []).length ≤ CodecAv1vp.av1MaxTemporalUnitSize + P := by
-      rcases getLastD_mem_or obus with h0 | h0
-      · rw [h0]; simp
-      · exact hl _ h0
+  · have hmem : obus.getLastD [] ∈ obus := by
+      cases obus with
+      | nil => exact absurd rfl hne
+      | cons a t => rw [List.getLastD_cons]; exact getLastD_mem_cons a t
+    have hlast := hl _ hmem
     simp only
     split
-    · exact ⟨by simp [hfr], hlast, h.fb_eq, h.fb_len, h.fb_le, h.fb_cnt⟩
-    · exact ⟨by simp [hfr], hlast, h.fb_eq, h.fb_len, h.fb_le, h.fb_cnt⟩
+    · exact ⟨by simp [hfr], hlast.2, h.fb_eq, h.fb_len, h.fb_le, h.fb_cnt,
+        by intro x hx; simp only [hfr, List.nil_append, List.mem_singleton] at hx; subst hx; exact hlast.1⟩
+    · exact ⟨by simp [hfr], hlast.2, h.fb_eq, h.fb_len, h.fb_le, h.fb_cnt,
+        by intro x hx; simp only [hfr, List.nil_append, List.mem_singleton] at hx; subst hx; exact hlast.1⟩
   · exact h
 
 theorem afterParse_inv (P : Nat) (d : Dec) (p : Pkt) (z y : Bool) (obus : List Bytes) (h : Inv P d)
-    (hall : ∀ x ∈ obus, x.length ≤ P) : Inv P (afterParse d p z y obus).1 := by
+    (hne : obus ≠ []) (hall : ∀ x ∈ obus, 0 < x.length ∧ x.length ≤ P) : Inv P (afterParse d p z y obus).1 := by
+  have hhead : obus.headD [] ∈ obus := by
+    cases obus with
+    | nil => exact absurd rfl hne
+    | cons a t => simp
   unfold afterParse
   split
   · split
     · exact h
-    · simp only
+    · rename_i hnz
+      simp only
       split
       · exact inv_resetFragments P _ (inv_first P d true h)
       · split
         · exact inv_resetFragments P _ (inv_first P d true h)
         · rename_i hsz
           split
-          · exact ⟨by simp [h.frag_eq], by first | omega | (simp only; omega), h.fb_eq, h.fb_len, h.fb_le, h.fb_cnt⟩
+          · refine ⟨by simp [h.frag_eq], by first | omega | (simp only; omega), h.fb_eq, h.fb_len, h.fb_le, h.fb_cnt, ?_⟩
+            intro x hx
+            simp only [List.mem_append, List.mem_singleton] at hx
+            rcases hx with hx | hx
+            · exact h.frag_ne x hx
+            · subst hx; exact (hall _ hhead).1
           · apply holdLast_inv
-            · exact ⟨rfl, by simp [Dec.resetFragments], h.fb_eq, h.fb_len, h.fb_le, h.fb_cnt⟩
+            · exact ⟨rfl, by simp [Dec.resetFragments], h.fb_eq, h.fb_len, h.fb_le, h.fb_cnt, by simp [Dec.resetFragments]⟩
             · rfl
+            · simp
             · intro x hx
               simp only [List.mem_cons] at hx
               rcases hx with hx | hx
@@ -170,6 +255,7 @@ theorem afterParse_inv (P : Nat) (d : Dec) (p : Pkt) (z y : Bool) (obus : List B
   · apply holdLast_inv
     · exact inv_resetFragments P _ (inv_first P d true h)
     · rfl
+    · exact hne
     · intro x hx; have := hall x hx; omega
 
 /-- `decodeOBUs` keeps the invariant for EVERY packet whose payload is at most `P` bytes -/
@@ -183,14 +269,18 @@ theorem decodeOBUs_inv (P : Nat) (d : Dec) (p : Pkt) (h : Inv P d) (hp : p.paylo
     · exact inv_resetFragments P d h
     · rename_i obus hparse
       have htot := parseObus_total _ _ _ _ _ hparse
-      have hall : ∀ x ∈ obus, x.length ≤ P := by
+      rename_i hlen
+      have hpos := parseObus_pos _ _ _ _ _ (by simp) hparse
+      have hnn := parseObus_ne_nil _ _ _ _ _ (by simp only [List.length_tail]; omega)
+        (by simp only [List.length_tail]; omega) hparse
+      have hall : ∀ x ∈ obus, 0 < x.length ∧ x.length ≤ P := by
         intro x hx
         have := mem_length_le_totalLen obus x hx
         simp only [totalLen_nil, List.length_tail] at htot
-        omega
+        exact ⟨hpos x hx, by omega⟩
       split
       · exact h
-      · exact afterParse_inv P d p _ _ obus h hall
+      · exact afterParse_inv P d p _ _ obus h (by intro h0; rw [h0] at hnn; simp at hnn) hall
 
 theorem afterParse_fb (d : Dec) (p : Pkt) (z y : Bool) (obus : List Bytes) :
     (afterParse d p z y obus).1.frameBuffer = d.frameBuffer ∧ (afterParse d p z y obus).1.frameBufferLen = d.frameBufferLen ∧
@@ -241,7 +331,7 @@ theorem inv_decode (P : Nat) (d : Dec) (p : Pkt) (h : Inv P d) (hp : p.payload.l
       · exact inv_resetFrameBuffer P d1 h1
       · have hi : Inv P { d1 with frameBuffer := d1.frameBuffer ++ obus, frameBufferLen := d1.frameBufferLen + obus.length,
                                   frameBufferSize := d1.frameBufferSize + totalLen obus } :=
-          ⟨h1.frag_eq, h1.frag_le, by simp [h1.fb_eq], by simp [h1.fb_len], by simp only; omega, by simp only; omega⟩
+          ⟨h1.frag_eq, h1.frag_le, by simp [h1.fb_eq], by simp [h1.fb_len], by simp only; omega, by simp only; omega, h1.frag_ne⟩
         split
         · exact hi
         · exact inv_resetFrameBuffer P _ hi
